@@ -171,6 +171,6 @@ def handleEval (req : Sexp) : Sexp :=
     -- is the whole program inside the fragment of the composite theorem (Gv.Props.C02.C02_composite)?
     let wantFrag := wantSpec || (fieldArgs req "spec").any (fun x => asString x == "fragment")
     let frag := if wantFrag then [mkList "fragment" [.atom (toString (PlanCheck.checkProg prog))]] else []
-    mkList "ok" (outs ++ frag)
+    mkList "ok" (outs ++ frag ++ symCompare gc ms req)
 
 end Gv.Driver
